@@ -48,7 +48,21 @@ def close(parts, tail):
     return "".join(parts) + tail + ")" * sum(2 if p.startswith("(bind") else 1 for p in parts)
 
 
+SCHEDULE = """
+job: Job = create_job_instance(Job, tzinfo=self.__tzinfo, **kwargs)
+task = self.__loop.create_task(self.__supervise_job(job))
+self._jobs[job] = task
+return job
+"""
+
+
 def translate(tree):
+    # __schedule: the job is built for the scheduler's tzinfo, one supervising task is created for it ON THE
+    # SCHEDULER'S OWN LOOP and registered under the job (recognised by template: task creation is modelled)
+    sd = find_method(tree, "Scheduler", "__schedule")
+    sbody = [b for b in sd.body if not (isinstance(b, ast.Expr) and isinstance(b.value, ast.Constant))]
+    if ast.dump(ast.Module(body=sbody, type_ignores=[])) != ast.dump(ast.parse(SCHEDULE)):
+        fail(sd, "asyncio __schedule differs from the template the translator knows")
     fd = find_method(tree, "Scheduler", "__supervise_job")
     if not isinstance(fd, ast.AsyncFunctionDef) or [a.arg for a in fd.args.args] != ["self", "job"]:
         fail(fd, "signature of __supervise_job")
